@@ -46,7 +46,7 @@ def _decode_tla_string(line):
 
 def run(module, cfg=None, *, workers=1, scratch=None, env=None, timeout=3600, simulate=None,
         depth=None, seed=None, coverage=False, extra=(), spec_dir=SPEC_DIR, deadlock=False,
-        collect=True, heap="8g", expect_violation=False, dfid=None):
+        collect=True, heap="8g", expect_violation=False, dfid=None, xss=None):
     """Run TLC on spec_dir/module.tla with spec_dir/cfg (default module.cfg)."""
     own = scratch is None
     if own:
@@ -55,7 +55,7 @@ def run(module, cfg=None, *, workers=1, scratch=None, env=None, timeout=3600, si
     cfg = cfg or (module + ".cfg")
     cfg_path = cfg if os.path.isabs(cfg) else os.path.join(spec_dir, cfg)
     mod_path = module if os.path.isabs(module) else os.path.join(spec_dir, module + ".tla")
-    cmd = ["java", "-XX:+UseParallelGC", "-Xmx" + heap, "-DTLA-Library=" + SPEC_DIR,
+    cmd = ["java", "-XX:+UseParallelGC", "-Xmx" + heap] + (["-Xss" + xss] if xss else []) + ["-DTLA-Library=" + SPEC_DIR,
            "-cp", JAR + ":" + DEPS, "tlc2.TLC",
            "-workers", str(workers), "-metadir", meta, "-noGenerateSpecTE",
            "-config", cfg_path]
